@@ -29,6 +29,21 @@ NOTES = ("All checks: cd /verif && /venv/bin/python run_check.py Cxx --tier quic
          "Committed regression replays under /verif/replays/<id>/ are executed first by every run.")
 
 CHECKS = [
+    {'id': 'C01',
+     'technique': 'Hypothesis-generated tensor programs and ncon/einsum networks compared exactly with a NumPy dense reference model',
+     'text': 'Short generated programs (every listed operation, constructed contraction/addition/trace/diagonal partners with equal, '
+             'overlapping or disjoint sectors, lazy and materialised permutations, hard/meta fusion, all symmetries, policies and '
+             'dtypes) and random ncon/einsum networks are executed on yastn and on an independent dense model; after every step values '
+             '(==, integer data), charge, signatures, fusion histories and the three observers are compared. Sampling; no absence proof.',
+     'note': 'trusted: the NumPy model in vlib/model.py, unfuse_legs/to_numpy(legs=) as observation channel (checked by C03), '
+             'integer exactness of IEEE doubles; one open known finding (to_nonsymmetric of an empty tensor)'},
+    {'id': 'C02',
+     'technique': 'Hypothesis-generated operation sequences with an independent well-formedness validator and charge model after every step',
+     'text': 'Programs of 3-12 public operations incl. factorisations, block, constructors, masks and swap gates; every returned tensor '
+             'is validated with is_consistent() and an independent re-derivation of the selection rule, block order, shapes, sizes, '
+             'fusion histories and forbidden-sector zeros; the charge of each result is compared with the group-law prediction.',
+     'note': 'trusted: the independent group law (table of moduli), public accessors; results of factorisations/block are re-based '
+             'before later steps'},
     {'id': 'C19',
      'technique': 'exhaustive enumeration of the group law against an independent table + Hypothesis search over Leg arguments',
      'text': 'Every fuse()/add_charges() row in the stated charge box (complete for Z2/Z3 factors, |t|<=B for U(1)) for '
